@@ -230,7 +230,7 @@ func TestVerifP2PWireCases(t *testing.T) {
 			m = magic + 1
 		}
 		stream := append(pwHeader(m, f.Cmd, uint32(decl), cks)[:f.Hdr], payloadBytes...)
-		if progress != "" && (c.Kind == "count" || c.Kind == "length") {
+		if progress != "" && (c.Kind == "count" || c.Kind == "length" || c.Kind == "random" || c.Kind == "randomtrail") {
 			os.WriteFile(progress, []byte(fmt.Sprint(i)), 0644)
 		}
 		o := pwObs{I: i, Stream: len(stream), Decl: decl}
@@ -238,10 +238,15 @@ func TestVerifP2PWireCases(t *testing.T) {
 		var msg Message
 		var err error
 		var ms0, ms1 runtime.MemStats
-		runtime.ReadMemStats(&ms0)
+		measure := c.Kind != "byte" && c.Kind != "trail" && c.Kind != "trunc" // hostile counts / lengths / random streams
+		if measure {
+			runtime.ReadMemStats(&ms0)
+		}
 		p := pwCatch(func() { msg, _, err = ReadMessage(rd) })
-		runtime.ReadMemStats(&ms1)
-		o.Alloc = ms1.TotalAlloc - ms0.TotalAlloc
+		if measure {
+			runtime.ReadMemStats(&ms1)
+			o.Alloc = ms1.TotalAlloc - ms0.TotalAlloc
+		}
 		o.Asked = rd.asked
 		switch {
 		case p != "":
